@@ -2,6 +2,7 @@ package c18
 
 import (
 	"fmt"
+	"math"
 	"os"
 	"path/filepath"
 	"reflect"
@@ -188,6 +189,15 @@ func (c *Case) direct(l Line) *benchfmt.Result {
 	return r
 }
 
+// spellValue writes a measurement as a tool would: integer values with all their digits
+// (9223372036854775808, not 9.223372036854776e+18), everything else in shortest form.
+func spellValue(f float64) string {
+	if f == math.Trunc(f) && math.Abs(f) < 1e21 {
+		return strconv.FormatFloat(f, 'f', 0, 64)
+	}
+	return strconv.FormatFloat(f, 'g', -1, 64)
+}
+
 // fileText writes lines as one benchmark-format file.
 func (c *Case) fileText(idx []int) string {
 	var sb strings.Builder
@@ -210,7 +220,7 @@ func (c *Case) fileText(idx []int) string {
 			sb.WriteString(" " + strconv.Itoa(k+1) + " pad" + strconv.Itoa(k))
 		}
 		for j, u := range l.U {
-			sb.WriteString(" " + strconv.FormatFloat(l.V[j], 'g', -1, 64) + " " + c.Units[u])
+			sb.WriteString(" " + spellValue(l.V[j]) + " " + c.Units[u])
 		}
 		for k := pb; k < l.pad(c); k++ {
 			sb.WriteString(" " + strconv.Itoa(k+1) + " pad" + strconv.Itoa(k))
@@ -964,6 +974,10 @@ func genValue(t *rapid.T, kind int) float64 {
 	case 1:
 		return rapid.Float64Range(0.001, 1e6).Draw(t, "v")
 	case 2: // realistic ns counts
+		if rare(t, "int64edge", 6) {
+			// totals around the limits of the 64-bit integers, written out in full in files
+			return rapid.SampledFrom([]float64{9223372036854775808, 9223372036854775807, 18446744073709551616, 4611686018427387904, 9007199254740993}).Draw(t, "edgev")
+		}
 		return float64(rapid.IntRange(1000, 4000000000).Draw(t, "v"))
 	default: // signed / zero (series unit only; no bounds are claimed there)
 		return float64(rapid.IntRange(-3, 3).Draw(t, "v"))
